@@ -158,7 +158,8 @@ theorem rawP_congr {ms0 : List Macro} {st a b : St} (h : RawP ms0 st a) (hs : Sa
 
 /-- `argnext` inside an invocation whose text has no new-line: `rawnext` -/
 theorem argLoopP (ms0 : List Macro) (k : Nat) (st st2 : St) (g : GoodP ms0 st)
-    (hhead : ∀ t r, st.raw = t :: r → ArgTokOK ms0 t) (h : exec k (.argLoop false) st = .ok st2) :
+    (hhead : ∀ t r, st.raw = t :: r → t.kind ≠ .TNEWLINE ∧ t.kind ≠ .THASH ∧ t.kind ≠ .TNONE)
+    (h : exec k (.argLoop false) st = .ok st2) :
     GoodP ms0 st2 ∧ RawP ms0 st st2 := by
   cases k with
   | zero => cases h
@@ -170,7 +171,7 @@ theorem argLoopP (ms0 : List Macro) (k : Nat) (st st2 : St) (g : GoodP ms0 st)
     | ok s1 =>
       rw [hr] at h
       simp only at h
-      obtain ⟨g1, hR⟩ := rawnextP ms0 k' st s1 g (fun t r hh => ⟨(hhead t r hh).2.2.1, (hhead t r hh).2.1⟩) hr
+      obtain ⟨g1, hR⟩ := rawnextP ms0 k' st s1 g (fun t r hh => ⟨(hhead t r hh).2.2, (hhead t r hh).2.1⟩) hr
       have hsb : SameBut (if s1.raw.length + 1 < st.raw.length then s1.ev .dirInArgs else s1) s1 :=
         ite_sameBut (SameBut.ev _ _) (SameBut.refl _)
       have hnl : s1.rt.kind ≠ .TNEWLINE := by
@@ -183,5 +184,152 @@ theorem argLoopP (ms0 : List Macro) (k : Nat) (st st2 : St) (g : GoodP ms0 st)
       simp only [hnl', ↓reduceIte, Bool.false_eq_true] at h
       cases h
       exact ⟨goodP_congr g1 hsb.2.1 hsb.2.2.1 hsb.2.2.2.1 hsb.2.2.2.2.1 hsb.2.2.2.2.2.1, rawP_congr hR hsb⟩
+
+/-! ## invocations nested in arguments -/
+
+/-- `L = consumed ++ rest` where `consumed` is a sequence of tokens that start no invocation
+(`ArgTokOK`) and of complete invocations of function-like macros, themselves of this form -/
+inductive ArgsOK (ms0 : List Macro) : List Tok → List Tok → Prop where
+  | done (rest : List Tok) : ArgsOK ms0 rest rest
+  | tok (t : Tok) (L rest : List Tok) (h : ArgTokOK ms0 t) (more : ArgsOK ms0 L rest) : ArgsOK ms0 (t :: L) rest
+  | call (G lp : Tok) (r'' : List Tok) (FG : Macro) (argsG : List (List Tok)) (rest'' rest : List Tok)
+      (h1 : G.kind = .TIDENT) (h2 : G.hide = false) (h3 : macroget ms0 (G.lit.getD []) = some FG)
+      (h4 : FG.func = true) (h5 : lp.kind = .TLPAREN) (h5' : lp.hide = false)
+      (h6 : collect FG.params 0 0 [] [] r'' = .ok (argsG, rest''))
+      (h7 : ArgsOK ms0 r'' rest'') (h8 : ∀ a ∈ argsG, a ≠ [])
+      (more : ArgsOK ms0 rest'' rest) : ArgsOK ms0 (G :: lp :: r'') rest
+
+theorem ArgsOK.trans {ms0 : List Macro} {a b c : List Tok} (h1 : ArgsOK ms0 a b) (h2 : ArgsOK ms0 b c) : ArgsOK ms0 a c := by
+  induction h1 with
+  | done _ => exact h2
+  | tok t L rest h more ih => exact .tok t L c h (ih h2)
+  | call G lp r'' FG argsG rest'' rest h1 h2' h3 h4 h5 h5' h6 h7 h8 more _ ih =>
+    exact .call G lp r'' FG argsG rest'' c h1 h2' h3 h4 h5 h5' h6 h7 h8 (ih h2)
+
+theorem ArgsOK.suffix {ms0 : List Macro} {a b : List Tok} (h : ArgsOK ms0 a b) : ∃ pre, a = pre ++ b := by
+  induction h with
+  | done _ => exact ⟨[], rfl⟩
+  | tok t L rest _ _ ih => obtain ⟨pre, hp⟩ := ih; exact ⟨t :: pre, by rw [hp]; rfl⟩
+  | call G lp r'' FG argsG rest'' rest _ _ _ _ _ _ _ _ _ _ ih1 ih2 =>
+    obtain ⟨p1, hp1⟩ := ih1
+    obtain ⟨p2, hp2⟩ := ih2
+    exact ⟨G :: lp :: (p1 ++ p2), by rw [hp1, hp2]; simp⟩
+
+/-- what every consumed token satisfies -/
+def RawOK (t : Tok) : Prop :=
+  t.kind ≠ .TNEWLINE ∧ t.kind ≠ .THASH ∧ t.kind ≠ .TNONE ∧ t.kind ≠ .TEOF ∧ t.hide = false
+
+theorem ArgsOK.raw {ms0 : List Macro} {a b : List Tok} (h : ArgsOK ms0 a b) :
+    ∀ x ∈ a.take (a.length - b.length), RawOK x := by
+  induction h with
+  | done _ => intro x hx; simp at hx
+  | tok t L rest ht more ih =>
+    obtain ⟨pre, hp⟩ := more.suffix
+    intro x hx
+    have : (t :: L).length - rest.length = (L.length - rest.length) + 1 := by rw [hp]; simp; omega
+    rw [this, List.take_succ_cons] at hx
+    rcases List.mem_cons.mp hx with rfl | hx
+    · exact ⟨ht.1, ht.2.1, ht.2.2.1, ht.2.2.2.1, ht.2.2.2.2.2⟩
+    · exact ih x hx
+  | call G lp r'' FG argsG rest'' rest h1 h2 h3 h4 h5 h5' h6 h7 h8 more ih1 ih2 =>
+    obtain ⟨p1, hp1⟩ := h7.suffix
+    obtain ⟨p2, hp2⟩ := more.suffix
+    intro x hx
+    have e : (G :: lp :: r'').take ((G :: lp :: r'').length - rest.length) = G :: lp :: (p1 ++ p2) := by
+      rw [hp1, hp2]
+      have : (G :: lp :: (p1 ++ (p2 ++ rest))) = (G :: lp :: (p1 ++ p2)) ++ rest := by simp
+      rw [this, List.take_left']
+      simp; omega
+    rw [e] at hx
+    have e1 : r''.take (r''.length - rest''.length) = p1 := by rw [hp1]; simp
+    have e2 : rest''.take (rest''.length - rest.length) = p2 := by rw [hp2]; simp
+    rcases List.mem_cons.mp hx with rfl | hx
+    · exact ⟨by rw [h1]; decide, by rw [h1]; decide, by rw [h1]; decide, by rw [h1]; decide, h2⟩
+    · rcases List.mem_cons.mp hx with rfl | hx
+      · exact ⟨by rw [h5]; decide, by rw [h5]; decide, by rw [h5]; decide, by rw [h5]; decide, h5'⟩
+      · rcases List.mem_append.mp hx with hx | hx
+        · exact ih1 x (by rw [e1]; exact hx)
+        · exact ih2 x (by rw [e2]; exact hx)
+
+theorem argsOK_cons_inv {ms0 : List Macro} {t : Tok} {r rest : List Tok} (h : ArgsOK ms0 (t :: r) rest)
+    (hl : rest.length < (t :: r).length) :
+    (ArgTokOK ms0 t ∧ ArgsOK ms0 r rest) ∨
+    (∃ lp r'' FG argsG rest'', r = lp :: r'' ∧ t.kind = .TIDENT ∧ t.hide = false ∧
+      macroget ms0 (t.lit.getD []) = some FG ∧ FG.func = true ∧ lp.kind = .TLPAREN ∧ lp.hide = false ∧
+      collect FG.params 0 0 [] [] r'' = .ok (argsG, rest'') ∧ ArgsOK ms0 r'' rest'' ∧ (∀ a ∈ argsG, a ≠ []) ∧
+      ArgsOK ms0 rest'' rest) := by
+  cases h with
+  | done => exact absurd hl (Nat.lt_irrefl _)
+  | tok _ _ _ ht more => exact .inl ⟨ht, more⟩
+  | call _ lp r'' FG argsG rest'' _ h1 h2 h3 h4 h5 h5' h6 h7 h8 more =>
+    exact .inr ⟨lp, r'', FG, argsG, rest'', rfl, h1, h2, h3, h4, h5, h5', h6, h7, h8, more⟩
+
+/-- the text of a complete invocation, seen by the `collect` of the invocation around it: its tokens
+go to the current argument and the parenthesis count is back where it was -/
+theorem collect_skip (psG psF : List Param) (hnv : ∀ p ∈ psG, p.fvar = false) :
+    ∀ (ts : List Tok) (iG pG : Nat) (curG : List Tok) (doneG argsG : List (List Tok)) (rest' : List Tok),
+    collect psG iG pG curG doneG ts = .ok (argsG, rest') →
+    ∀ (i p : Nat) (cur : List Tok) (done : List (List Tok)),
+      collect psF i (p + 1 + pG) cur done ts =
+        collect psF i p ((ts.take (ts.length - rest'.length)).reverse ++ cur) done rest' := by
+  intro ts
+  induction ts with
+  | nil => intro iG pG curG doneG argsG rest' h; simp [collect] at h
+  | cons t r ih =>
+    intro iG pG curG doneG argsG rest' h i p cur done
+    have htk : ∀ {i' p' : Nat} {c' : List Tok} {d' : List (List Tok)},
+        collect psG i' p' c' d' r = .ok (argsG, rest') →
+        ((t :: r).take ((t :: r).length - rest'.length)).reverse = (r.take (r.length - rest'.length)).reverse ++ [t] := by
+      intro i' p' c' d' hh
+      have hl := collect_rest_lt psG _ _ _ _ _ _ _ hh
+      rw [show (t :: r).length - rest'.length = (r.length - rest'.length) + 1 by simp; omega, List.take_succ_cons,
+        List.reverse_cons]
+    unfold collect at h
+    by_cases hc : pG = 0 ∧ (t.kind = .TRPAREN ∨ (t.kind = .TCOMMA ∧ (psG.getD iG default).fvar = false))
+    · rw [if_pos hc] at h
+      obtain ⟨hp0, hkind⟩ := hc
+      subst hp0
+      have hnb : ¬ (p + 1 + 0 = 0 ∧ (t.kind = .TRPAREN ∨ (t.kind = .TCOMMA ∧ (psF.getD i default).fvar = false))) := by
+        intro hh; omega
+      rw [collect, if_neg hnb]
+      by_cases hf : t.kind = .TRPAREN ∨ iG + 1 = psG.length
+      · rw [if_pos hf] at h
+        by_cases h1 : iG + 1 < psG.length
+        · rw [if_pos h1] at h; cases h
+        · rw [if_neg h1] at h
+          by_cases h2 : t.kind ≠ .TRPAREN
+          · rw [if_pos h2] at h; cases h
+          · rw [if_neg h2] at h
+            have h2' : t.kind = .TRPAREN := by simpa using h2
+            simp only [Except.ok.injEq, Prod.mk.injEq] at h
+            obtain ⟨_, hrest⟩ := h
+            subst hrest
+            have hnl : t.kind ≠ .TLPAREN := by rw [h2']; decide
+            simp [hnl, h2']
+      · rw [if_neg hf] at h
+        have hcomma : t.kind = .TCOMMA := by
+          rcases hkind with hk | hk
+          · exact absurd (.inl hk) hf
+          · exact hk.1
+        have hnl : t.kind ≠ .TLPAREN := by rw [hcomma]; decide
+        have hnr : t.kind ≠ .TRPAREN := by rw [hcomma]; decide
+        simp only [hnl, hnr, ↓reduceIte]
+        rw [ih _ _ _ _ _ _ h i p (t :: cur) done, htk h]
+        simp
+    · rw [if_neg hc] at h
+      have hnb : ¬ (p + 1 + pG = 0 ∧ (t.kind = .TRPAREN ∨ (t.kind = .TCOMMA ∧ (psF.getD i default).fvar = false))) := by
+        intro hh; omega
+      rw [collect, if_neg hnb]
+      have hpar : (if t.kind = .TLPAREN then p + 1 + pG + 1 else if t.kind = .TRPAREN then p + 1 + pG - 1 else p + 1 + pG) =
+          p + 1 + (if t.kind = .TLPAREN then pG + 1 else if t.kind = .TRPAREN then pG - 1 else pG) := by
+        by_cases hl : t.kind = .TLPAREN
+        · simp [hl]; omega
+        · by_cases hr : t.kind = .TRPAREN
+          · have : pG ≠ 0 := by
+              intro h0; exact hc ⟨h0, .inl hr⟩
+            simp [hl, hr]; omega
+          · simp [hl, hr]
+      rw [hpar, ih _ _ _ _ _ _ h i p (t :: cur) done, htk h]
+      simp
 
 end CprocVerif.PP
